@@ -232,6 +232,26 @@ func TestString(t *testing.T) {
 				T(L(S(P(16, 1, 17), P(16, 1, 17))), token.STRING_END),
 			},
 		},
+		"reports errors for invalid multi-byte escape sequences": {
+			input: `"www.foo\żes.com"`,
+			want: []*token.Token{
+				T(L(S(P(0, 1, 1), P(0, 1, 1))), token.STRING_BEG),
+				V(L(S(P(1, 1, 2), P(7, 1, 8))), token.STRING_CONTENT, "www.foo"),
+				V(L(S(P(8, 1, 9), P(10, 1, 10))), token.ERROR, "invalid escape sequence `\\ż` in string literal"),
+				V(L(S(P(11, 1, 11), P(16, 1, 16))), token.STRING_CONTENT, "es.com"),
+				T(L(S(P(17, 1, 17), P(17, 1, 17))), token.STRING_END),
+			},
+		},
+		"reports errors for escaped newlines on the right line": {
+			input: "\"foo\\\nbar\"",
+			want: []*token.Token{
+				T(L(S(P(0, 1, 1), P(0, 1, 1))), token.STRING_BEG),
+				V(L(S(P(1, 1, 2), P(3, 1, 4))), token.STRING_CONTENT, "foo"),
+				V(L(S(P(4, 1, 5), P(5, 2, 0))), token.ERROR, "invalid escape sequence `\\\n` in string literal"),
+				V(L(S(P(6, 2, 1), P(8, 2, 3))), token.STRING_CONTENT, "bar"),
+				T(L(S(P(9, 2, 4), P(9, 2, 4))), token.STRING_END),
+			},
+		},
 		"creates errors for invalid hex escapes": {
 			input: `"some\xfj string"`,
 			want: []*token.Token{
